@@ -536,5 +536,21 @@ func specCheckStructure(t *specTable) (refs []RefRecord, logs []LogRecord) {
 	if len(order) == 0 || order[0] != 'r' {
 		VerifAssert(t.refIndex == 0, "wf-no-ref-index-without-refs")
 	}
+	// a section the file does not have has no position in the footer
+	hasObj, hasLog := false, false
+	for k := 0; k < len(order); k++ {
+		if order[k] == 'o' {
+			hasObj = true
+		}
+		if order[k] == 'g' {
+			hasLog = true
+		}
+	}
+	if !hasObj {
+		VerifAssert(t.objPos == 0 && t.objIndex == 0, "wf-obj-position-without-section")
+	}
+	if !hasLog {
+		VerifAssert(t.logPos == 0 && t.logIndex == 0, "wf-log-position-without-section")
+	}
 	return
 }
